@@ -581,7 +581,7 @@ fn outcome_name(op: Op, ret: &Ret) -> String {
 }
 
 /// One checked transition on the real allocator.  `pre` = serialized allocator before the call.
-/// Returns the successor (key, nontrivial flag) or the failure.
+/// Returns what was observed afterwards, or the failure.
 fn checked_step(
     a: &mut VerifBuddyAllocator,
     pre: &[u8],
@@ -643,8 +643,8 @@ enum Step {
 /// saving and reloading: the reloaded copy serializes identically, answers every observer
 /// identically and hashes identically
 fn check_reload(a: &VerifBuddyAllocator, obs: &Obs, m: &Model, out: &mut ChunkOut) -> Result<(), Fail> {
+    // counted as a transition once per distinct state, by the caller
     out.real_calls += 1;
-    out.transitions += 1;
     let r = par::guarded(|| {
         let b = VerifBuddyAllocator::from_bytes(&obs.bytes);
         (observe(&b), b.xxh3_hash(), a.xxh3_hash())
@@ -911,7 +911,6 @@ fn search_l1(cfg: &L1Cfg) -> SearchStats {
         let tp = Instant::now();
         let outs = par::map(&chunks, |_, chunk| expand_chunk(cfg, chunk, &visited, &initial));
         st.par_s += tp.elapsed().as_secs_f64();
-        let tb = Instant::now();
         let mut buckets: Vec<Vec<Vec<NewState>>> = (0..SHARDS).map(|_| vec![]).collect();
         for out in outs {
             st.transitions += out.transitions;
@@ -932,8 +931,6 @@ fn search_l1(cfg: &L1Cfg) -> SearchStats {
                 buckets[i].push(part);
             }
         }
-        let t_bucket = tb.elapsed().as_secs_f64();
-        let tm = Instant::now();
         // every shard of the visited set is updated by its own thread; the order of discovery is
         // made deterministic by sorting on (parent, op)
         let fresh: Vec<Vec<NewState>> = std::thread::scope(|s| {
@@ -957,8 +954,6 @@ fn search_l1(cfg: &L1Cfg) -> SearchStats {
                 .collect();
             handles.into_iter().map(|h| h.join().expect("merge thread")).collect()
         });
-        let t_merge = tm.elapsed().as_secs_f64();
-        let tn = Instant::now();
         let mut next: Vec<(u32, Box<[u8]>)> = vec![];
         for ns in fresh.into_iter().flatten() {
             let idx = meta.len() as u32;
@@ -970,9 +965,8 @@ fn search_l1(cfg: &L1Cfg) -> SearchStats {
             next.push((idx, ns.key));
         }
         total_states += next.len();
-        if std::env::var("ALLOCX_TIMING").is_ok() {
-            eprintln!("level {} frontier {} bucket {:.2} merge {:.2} next {:.2}", st.levels, frontier.len(), t_bucket, t_merge, tn.elapsed().as_secs_f64());
-        }
+        // the save/reload of every newly found state
+        st.transitions += next.len() as u64;
         // stop expanding a broken allocator: the traces so far are the evidence
         if st.viol_count > 0 && st.levels >= 3 {
             st.exhaustive = false;
@@ -987,7 +981,7 @@ fn search_l1(cfg: &L1Cfg) -> SearchStats {
         frontier = next;
     }
     st.states = total_states as u64;
-    st.transitions += boot.transitions;
+    st.transitions += boot.transitions + initial.len() as u64;
     st.real_calls += boot.real_calls;
     st.evaluations += boot.evaluations;
     // samples: the deepest state and one from the middle
@@ -2088,7 +2082,7 @@ pub fn run(tier: &str) -> i32 {
             free_regions: 2,
             freeable: vec![0, 10],
             max_order: 3,
-            depth: if thorough { 8 } else { 6 },
+            depth: if thorough { 7 } else { 5 },
             max_states: 3_000_000,
         },
         L2Cfg {
@@ -2135,6 +2129,7 @@ pub fn run(tier: &str) -> i32 {
     }
     let mut outcome: BTreeMap<String, u64> = BTreeMap::new();
     for (name, desc, st) in &mut searches {
+        let level = name.split(' ').next().unwrap().to_string();
         rep.add_count("states", st.states);
         rep.add_count("transitions", st.transitions);
         rep.add_count("traces_validated_against_impl", st.real_calls);
@@ -2143,26 +2138,36 @@ pub fn run(tier: &str) -> i32 {
         exhaustive &= st.exhaustive;
         caps_hit.extend(st.caps_hit.iter().cloned());
         for (k, v) in &st.outcome {
-            *outcome.entry(format!("{}:{k}", name.split(' ').next().unwrap())).or_insert(0) += v;
+            *outcome.entry(format!("{level}:{k}")).or_insert(0) += v;
         }
         samples.extend(st.samples.drain(..));
-        table.push(json!({
+        let mut row = json!({
             "search": name,
             "config": desc,
             "states": st.states,
             "transitions": st.transitions,
             "real_calls": st.real_calls,
             "levels": st.levels,
-            "fixpoint_reached": st.exhaustive,
+            "exhaustive": st.exhaustive,
             "distinct_nontrivial": st.nontrivial,
-            "max_live_blocks": st.max_live,
-            "all_initial_states_mutually_reachable": st.all_initial_states_mutually_reachable,
             "violations": st.viol_count,
             "wall_s": (st.wall_s * 100.0).round() / 100.0,
-        }));
+        });
+        match level.as_str() {
+            "L1" | "L1c" => {
+                row["fixpoint_reached"] = json!(st.exhaustive);
+                row["max_live_blocks"] = json!(st.max_live);
+                row["fixpoint_identical_from_every_initial_length"] = json!(st.all_initial_states_mutually_reachable);
+            }
+            "L1b" => row["fixpoint_reached"] = json!(st.exhaustive),
+            "L1d" => row["all_sequences_of_this_length_enumerated"] = json!(st.exhaustive),
+            _ => row["all_sequences_up_to_depth_enumerated_modulo_state_equality"] = json!(st.exhaustive),
+        }
+        table.push(row);
         for (key, msg, replay) in st.viols.drain(..) {
             rep.violation(key, format!("[{name}] {msg}"), replay);
         }
+        rep.machinery_errors.extend(st.machinery.drain(..));
     }
     rep.cov("searches", json!(table));
     rep.cov("samples", json!(samples));
@@ -2171,6 +2176,56 @@ pub fn run(tier: &str) -> i32 {
     if !caps_hit.is_empty() {
         rep.cov("caps_hit", json!(caps_hit));
     }
+    rep.cov(
+        "rule",
+        json!(
+            "L1/L1c: every state reachable from new(n, capacity) for every initial length n, by breadth-first search until the \
+             frontier is empty; state = (to_vec() bytes, sorted live blocks), rebuilt with from_bytes for every transition; transitions = \
+             alloc(o) and alloc_lowest(o) for every order in the alphabet up to max_order+1, free of every live block, record_alloc(p,o) \
+             for every block index up to capacity/2^o + 1 (free, allocated, partly allocated, beyond len, beyond capacity), resize(n) for \
+             every n in 1..=capacity whose dropped pages are free, and the save/reload of every newly found state. L1d: every sequence of \
+             exactly `depth` such operations from every new(n, capacity) on one in-memory allocator (no reload). L1b: every state of a \
+             RegionTracker reachable by mark_free/mark_full on the active regions. L2: every sequence of verif_allocate(order, lowest)/\
+             verif_free(live block) up to the depth bound, sequences that reach the same (region bitmaps, tracker bits, layout length, live \
+             blocks) merged. `states` counts distinct states; a state is NON-TRIVIAL when the harness holds at least one live block and a free \
+             block of order >= 1 exists (L1b: some region free at order 0 and full at the top order; L2: in a region that is partly \
+             allocated). `transitions` counts checked calls of the real code, `traces_validated_against_impl` all calls of the real \
+             allocator (including from_bytes rebuilds, prefill and replays; observers not counted)."
+        ),
+    );
+    rep.cov(
+        "bounds",
+        json!({
+            "tier": tier,
+            "L1_capacities_full_alphabet": [8, 12, 16],
+            "L1_capacities_orders_ge_1": if thorough { json!([24, 32]) } else { json!([]) },
+            "L1c": if thorough { "capacity 72, pages [0,56) pinned, window of 16 pages across the 64-bit word boundary" } else { "capacity 68, pages [0,60) pinned, window of 8 pages across the 64-bit word boundary" },
+            "L1d_depth": d_depth,
+            "L1b": "4 orders; 4 regions all active, and 130 regions with {0,63,64,129} active",
+            "L2": l2_cfgs.iter().map(L2Cfg::describe).collect::<Vec<_>>(),
+        }),
+    );
+    rep.assumptions.push(
+        "L1 rebuilds every state from its serialized bytes, so in-memory layout that to_vec() does not show (spare words of a \
+         shrunk bitmap) is only covered by the depth-bounded L1d sequences and by the first step from new()."
+            .into(),
+    );
+    rep.assumptions.push(
+        "resize(0) is not exercised (redb never resizes a region to zero pages: it drops the region), and shrinks are only issued \
+         when the dropped pages are free, which resize() itself asserts."
+            .into(),
+    );
+    rep.assumptions.push(
+        "L2 merges operation sequences by (free bitmaps and length of every region, all tracker bits, layout length, live blocks); \
+         a database is re-used for the next transition only after an undo whose result is equal in that sense, otherwise the sequence \
+         is replayed on a fresh database. L1b merges by the tracker's leaf bits; each state is rebuilt by replaying its first path."
+            .into(),
+    );
+    rep.assumptions.push(
+        "Capacities above 32 pages and allocation orders above 6 are not explored; the 64-ary summary level of BtreeBitmap is reached \
+         only at one word boundary (L1c) and in the region tracker (L1b with 130 regions)."
+            .into(),
+    );
     rep.cov("wall_s_total", json!(t_all.elapsed().as_secs_f64()));
     rep.finish()
 }
